@@ -252,9 +252,40 @@ pub fn cut(out: &mut Out, rng: &mut Rng, count: usize, all_cuts_below: usize) {
 }
 
 /// C04: reference run from a "slice" (everything delivered at once) against read schedules, capacities, pauses
+/// systematic family for C04: an element whose payload is just below / at / above the capacity, followed by a complete
+/// tag or by the first 1-3 bytes of one, under capacities 16..33 and whole / byte-wise delivery
+fn sched_capacity_edges(out: &mut Out, n: &mut usize) {
+    let s = gen::s3();
+    for &plen in &[14usize, 15, 16, 17, 18, 30, 31, 32, 33, 34] {
+        for tail in 0..4usize {
+            for nested in [false, true] {
+                let mut bytes: Vec<u8> = Vec::new();
+                let mut el = vec![0xecu8]; el.extend(gen::size_field(plen as u64, 0)); el.extend((0..plen).map(|i| (i * 3 + 1) as u8));
+                let follow = [0x8bu8, 0x80, 0x8b, 0x80];
+                if nested { let mut body = el.clone(); body.extend([0x89, 0x81, 0x07]); bytes.extend([0x81]); bytes.extend(gen::size_field(body.len() as u64, 0)); bytes.extend(body); } else { bytes.extend(el); }
+                bytes.extend(&follow[..tail]);
+                for eof_close in [true, false] {
+                    let mut base = ReaderCfg::strict(); base.eof_close = eof_close;
+                    begin(out, n, &s, "sched", json!({"family":"capacity_edges"}));
+                    run_reader::<DynTag>(out, "slice", &bytes, &base, &[], &until_end());
+                    for cap in [16usize, 17, 18, 31, 32, 33] {
+                        for bytewise in [false, true] {
+                            let mut c = base.clone(); c.cap = Some(cap);
+                            let sc: Vec<Step> = if bytewise { (0..bytes.len() + 2).map(|_| Step::N(1)).collect() } else { vec![] };
+                            run_reader::<DynTag>(out, &format!("sched:cap{cap}"), &bytes, &c, &sc, &Calls::UntilEnd { extra: 1, max_calls: 200 });
+                        }
+                    }
+                    out.ev(json!({"ev":"end"}));
+                }
+            }
+        }
+    }
+}
+
 pub fn sched(out: &mut Out, rng: &mut Rng, count: usize, exhaustive_below: usize, caps: &[Option<usize>]) {
     let mut n = 0usize;
     witness_buffered_eof(out, &mut n);
+    sched_capacity_edges(out, &mut n);
     for i in 0..count {
         let s = pick_schema(rng, i);
         let doc = small_doc(rng, &s, if i % 6 == 0 { 40 } else { 8 }, i % 3 == 0);
